@@ -7,10 +7,15 @@ The proofs are semantic (bit-wise), so a harmless rewrite of the source (`~(key 
 operands) still proves while a change of meaning breaks the obligation.
 Likewise the methods of the `Routes` enumeration (rig/routing_table/entries.py: `is_link`, `is_core`,
 `core_num`, `opposite`, `core`), `self` being the member's integer value, against Model/C04U.lean.
+Second round: `get_common_xs` (rig/routing_table/utils.py; a `for` loop over the entries, its body the generated
+definition `get_common_xs_loop1`) = `commonXs`; `_get_insertion_index` (ordered_covering.py: a nested `def`, list
+indexing with its IndexError, a binary-search `while` loop and a scanning `while` loop whose condition can raise) =
+`insertionIndex` for every fuel larger than the table - neither IndexError nor fuel exhaustion is reachable.
 -/
 import RigModel.Model.C04U
 import RigModel.Gen.PyFun
 import RigModel.Lemmas.IntBits
+import RigModel.Lemmas.PyLoops
 import Mathlib.Tactic.SplitIfs
 set_option linter.unusedSimpArgs false
 set_option linter.unusedVariables false
@@ -18,7 +23,7 @@ set_option linter.unusedTactic false
 set_option linter.unreachableTactic false
 
 namespace Rig.C04
-open Rig.Gen Rig.IntBits
+open Rig.Gen Rig.IntBits Rig.PyLoops
 
 /-- the Python int of a 32-bit word -/
 abbrev wi (k : W) : Int := ((k.toNat : Nat) : Int)
@@ -115,5 +120,256 @@ theorem gen_routes_opposite (r : Nat) : PyFun.Routes_opposite r = excInt (routeO
 theorem gen_routes_core (num : Int) : PyFun.Routes_core num = excInt (routesCore num) := by
   simp only [PyFun.Routes_core, routesCore]
   exc_ifs
+
+/-! ### utils.py: `get_common_xs` (a `for` loop over the entries) -/
+
+/-- the Python view of an entry for `get_common_xs`: the ints `(entry.key, entry.mask)` -/
+def kmInt (e : Entry) : Int × Int := (wi e.key, wi e.mask)
+
+theorem wi_lor (a b : W) : Int.lor (wi a) (wi b) = wi (a ||| b) := by
+  simp only [wi, lor_natCast, BitVec.toNat_or]
+
+theorem common_loop1 (a b : W) (e : Entry) :
+    PyFun.get_common_xs_loop1 (wi a, wi b) (kmInt e) = (wi (a ||| e.key), wi (b ||| e.mask)) := by
+  unfold PyFun.get_common_xs_loop1 kmInt
+  dsimp only
+  simp only [wi_lor, Prod.mk.injEq, wi_inj]
+  try (constructor <;> first
+    | rfl
+    | trivial
+    | (apply BitVec.eq_of_getLsbD_eq; intro i hi
+       simp only [BitVec.getLsbD_or, BitVec.getLsbD_and, BitVec.getLsbD_xor]; grind))
+
+theorem common_fold (T : List Entry) : ∀ (a b : W),
+    (T.map kmInt).foldl PyFun.get_common_xs_loop1 (wi a, wi b)
+      = (wi (T.foldl (fun a e => a ||| e.key) a), wi (T.foldl (fun a e => a ||| e.mask) b)) := by
+  induction T with
+  | nil => intro a b; rfl
+  | cons e t ih =>
+    intro a b
+    rw [List.map_cons, List.foldl_cons, common_loop1, ih]
+    rfl
+
+theorem testBit_mask32 (i : Nat) : (4294967295 : Int).testBit i = decide (i < 32) := by
+  have : (4294967295 : Int) = ((2 ^ 32 - 1 : Nat) : Int) := by decide
+  rw [this, testBit_natCast, Nat.testBit_two_pow_sub_one]
+
+/-- `get_common_xs` as written in the source = the model's `commonXs`, on the Python ints of 32-bit words -/
+theorem gen_get_common_xs (T : List Entry) : PyFun.get_common_xs (T.map kmInt) = wi (commonXs T) := by
+  unfold PyFun.get_common_xs commonXs
+  have h0 : (0 : Int) = wi 0 := rfl
+  dsimp only
+  rw [h0, common_fold]
+  dsimp only
+  apply eq_of_testBit_eq
+  intro i
+  simp only [Int.testBit_land, Int.testBit_lor, Int.testBit_lnot, Int.testBit_lxor, testBit_mask32, wi_testBit,
+    BitVec.getLsbD_not, BitVec.getLsbD_or]
+  by_cases hi : i < 32 <;> simp [hi]
+
+/-! ### ordered_covering.py: `_get_insertion_index` (binary search + forward scan: two `while` loops, list indexing) -/
+
+/-- reading an entry of the table the Python way -/
+theorem pyGet_kmInt (T : List Entry) (p : Nat) (hp : p < T.length) :
+    PyFun.pyGet (T.map kmInt) (p : Int) = .ok (kmInt T[p]) := by
+  unfold PyFun.pyGet
+  have h1 : ¬ ((p : Int) < 0) := by omega
+  simp only [h1, if_false, Int.toNat_natCast, List.getElem?_map, List.getElem?_eq_getElem hp, Option.map_some]
+
+/-- `gg(entry)` of the source on an entry of the model -/
+theorem gg_kmInt (e : Entry) : PyFun.get_generality (kmInt e).1 (kmInt e).2 = ((e.gen : Nat) : Int) :=
+  gen_get_generality e.key e.mask
+
+/-- the state of the binary search as the generated loop sees it -/
+def bsState (T : List Entry) (b t p : Nat) (hp : p < T.length) :
+    Bool × Option (Except String Int) × Int × Int × Int × Int :=
+  (false, none, (b : Int), (t : Int), (p : Int), ((T[p].gen : Nat) : Int))
+
+theorem bs_cond (T : List Entry) (g b t p : Nat) (hp : p < T.length) :
+    PyFun.get_insertion_index_loop1_cond ((g : Int) - 1) (bsState T b t p hp)
+      = decide (T[p].gen + 1 ≠ g ∧ b < p ∧ p < t) := by
+  unfold PyFun.get_insertion_index_loop1_cond bsState
+  simp only [Bool.not_false, Bool.true_and]
+  rw [Bool.eq_iff_iff]
+  simp only [decide_eq_true_eq]
+  omega
+
+theorem fdiv2 (a : Int) : Int.fdiv a 2 = a / 2 := Int.fdiv_eq_ediv_of_nonneg a (by decide)
+
+/-- reading an entry at any in-range Python index expression -/
+theorem pyGet_kmInt' (T : List Entry) (z : Int) (h0 : 0 ≤ z) (h1 : z.toNat < T.length) :
+    PyFun.pyGet (T.map kmInt) z = .ok (kmInt (T[z.toNat]'h1)) := by
+  have := pyGet_kmInt T z.toNat h1
+  rwa [Int.toNat_of_nonneg h0] at this
+
+/-- closes `generated next state = bsState ...`: the position by arithmetic, the entry read by the position -/
+macro "bs_next" : tactic => `(tactic|
+  (simp only [fdiv2]
+   rw [pyGet_kmInt' _ _ (by omega) (by omega)]
+   simp only [gg_kmInt, bsState, Prod.mk.injEq, true_and]
+   refine ⟨by omega, ?_⟩
+   congr 3
+   omega))
+
+/-- one round of the binary search: the generated body does what the model's `bsLoop` does -/
+theorem bs_body (T : List Entry) (g b t p : Nat) (hp : p < T.length) (ht : t ≤ T.length)
+    (hc : T[p].gen + 1 ≠ g ∧ b < p ∧ p < t) :
+    PyFun.get_insertion_index_loop1 (T.map kmInt) ((g : Int) - 1) (bsState T b t p hp)
+      = if T[p].gen + 1 < g
+        then bsState T p t (p + (t - p) / 2) (by omega)
+        else bsState T b p (b + (p - b) / 2) (by omega) := by
+  unfold PyFun.get_insertion_index_loop1
+  rw [bsState]
+  dsimp only
+  by_cases hlt : T[p].gen + 1 < g
+  · have h1 : ((T[p].gen : Nat) : Int) < (g : Int) - 1 := by omega
+    simp only [h1, hlt, if_true]
+    bs_next
+  · have h1 : ¬ (((T[p].gen : Nat) : Int) < (g : Int) - 1) := by omega
+    simp only [h1, hlt, if_false]
+    bs_next
+
+/-- the binary search: with fuel `≥ top - bottom` the generated loop ends in the state whose position is the
+model's `bsLoop` (for every model fuel `≥ top - bottom` as well) -/
+theorem bs_loop (T : List Entry) (g : Nat) : ∀ (d b t p : Nat) (hp : p < T.length), t ≤ T.length → t - b ≤ d →
+    ∃ (b' t' p' : Nat) (hp' : p' < T.length), p' ≤ T.length ∧
+      (∀ fuel, d ≤ fuel → PyFun.pyWhile (PyFun.get_insertion_index_loop1_cond ((g : Int) - 1))
+        (PyFun.get_insertion_index_loop1 (T.map kmInt) ((g : Int) - 1)) fuel (bsState T b t p hp)
+          = some (bsState T b' t' p' hp')) ∧
+      (∀ f, d ≤ f → bsLoop T g f b t p = p') := by
+  intro d
+  induction d with
+  | zero =>
+    intro b t p hp ht hd
+    refine ⟨b, t, p, hp, by omega, ?_, ?_⟩
+    · intro fuel _
+      have hc : PyFun.get_insertion_index_loop1_cond ((g : Int) - 1) (bsState T b t p hp) = false := by
+        rw [bs_cond]; simp only [decide_eq_false_iff_not]; omega
+      cases fuel <;> simp [PyFun.pyWhile, hc]
+    · intro f _
+      cases f with
+      | zero => rfl
+      | succ f =>
+        rw [bsLoop, List.getElem?_eq_getElem hp]
+        have : ¬ (T[p].gen + 1 ≠ g ∧ b < p ∧ p < t) := by omega
+        simp only [Entry.gen] at this ⊢
+        simp only [this, if_false]
+  | succ d ih =>
+    intro b t p hp ht hd
+    by_cases hc : T[p].gen + 1 ≠ g ∧ b < p ∧ p < t
+    · by_cases hlt : T[p].gen + 1 < g
+      · obtain ⟨b', t', p', hp', hle, hw, hm⟩ := ih p t (p + (t - p) / 2) (by omega) ht (by omega)
+        refine ⟨b', t', p', hp', hle, ?_, ?_⟩
+        · intro fuel hf
+          obtain ⟨fuel, rfl⟩ : ∃ k, fuel = k + 1 := ⟨fuel - 1, by omega⟩
+          have hcb := bs_cond T g b t p hp
+          rw [PyFun.pyWhile, hcb, if_pos (by simpa using hc), bs_body T g b t p hp ht hc, if_pos hlt]
+          exact hw fuel (by omega)
+        · intro f hf
+          obtain ⟨f, rfl⟩ : ∃ k, f = k + 1 := ⟨f - 1, by omega⟩
+          rw [bsLoop, List.getElem?_eq_getElem hp]
+          simp only [Entry.gen] at hc hlt ⊢
+          simp only [hc, hlt, if_true, ne_eq, not_false_eq_true, and_self]
+          exact hm f (by omega)
+      · obtain ⟨b', t', p', hp', hle, hw, hm⟩ := ih b p (b + (p - b) / 2) (by omega) (by omega) (by omega)
+        refine ⟨b', t', p', hp', hle, ?_, ?_⟩
+        · intro fuel hf
+          obtain ⟨fuel, rfl⟩ : ∃ k, fuel = k + 1 := ⟨fuel - 1, by omega⟩
+          have hcb := bs_cond T g b t p hp
+          rw [PyFun.pyWhile, hcb, if_pos (by simpa using hc), bs_body T g b t p hp ht hc, if_neg hlt]
+          exact hw fuel (by omega)
+        · intro f hf
+          obtain ⟨f, rfl⟩ : ∃ k, f = k + 1 := ⟨f - 1, by omega⟩
+          rw [bsLoop, List.getElem?_eq_getElem hp]
+          simp only [Entry.gen] at hc hlt ⊢
+          simp only [hc, hlt, if_true, if_false, ne_eq, not_false_eq_true, and_self]
+          exact hm f (by omega)
+    · refine ⟨b, t, p, hp, by omega, ?_, ?_⟩
+      · intro fuel _
+        have hcf : PyFun.get_insertion_index_loop1_cond ((g : Int) - 1) (bsState T b t p hp) = false := by
+          rw [bs_cond]; simpa using hc
+        cases fuel <;> simp [PyFun.pyWhile, hcf]
+      · intro f _
+        cases f with
+        | zero => rfl
+        | succ f =>
+          rw [bsLoop, List.getElem?_eq_getElem hp]
+          simp only [Entry.gen] at hc ⊢
+          simp only [hc, if_false]
+
+/-- the forward scan: the generated loop (condition evaluated inside the body, left by `break`) ends at the
+model's `scanFwd` -/
+theorem scan_loop (T : List Entry) (g : Nat) : ∀ (n p : Nat), p ≤ T.length → T.length - p ≤ n →
+    ∀ fuel, n + 1 ≤ fuel →
+      PyFun.pyWhile PyFun.get_insertion_index_loop2_cond
+        (PyFun.get_insertion_index_loop2 (T.map kmInt) ((g : Int) - 1)) fuel (false, none, (p : Int))
+        = some (true, none, ((scanFwd g (T.drop p) p : Nat) : Int)) := by
+  intro n
+  induction n with
+  | zero =>
+    intro p hp hn fuel hf
+    obtain ⟨fuel, rfl⟩ : ∃ k, fuel = k + 1 := ⟨fuel - 1, by omega⟩
+    have hpl : p = T.length := by omega
+    have hd : T.drop p = [] := by rw [hpl]; exact List.drop_length
+    have hlen : ¬ ((p : Int) < ((T.map kmInt).length : Int)) := by simp only [List.length_map]; omega
+    rw [PyFun.pyWhile]
+    simp only [PyFun.get_insertion_index_loop2_cond, PyFun.get_insertion_index_loop2, Bool.not_false, Bool.and_self,
+      if_true, hlen, decide_false, hd, scanFwd]
+    cases fuel <;> simp [PyFun.pyWhile, PyFun.get_insertion_index_loop2_cond]
+  | succ n ih =>
+    intro p hp hn fuel hf
+    obtain ⟨fuel, rfl⟩ : ∃ k, fuel = k + 1 := ⟨fuel - 1, by omega⟩
+    by_cases hpl : p = T.length
+    · have hd : T.drop p = [] := by rw [hpl]; exact List.drop_length
+      have hlen : ¬ ((p : Int) < ((T.map kmInt).length : Int)) := by simp only [List.length_map]; omega
+      rw [PyFun.pyWhile]
+      simp only [PyFun.get_insertion_index_loop2_cond, PyFun.get_insertion_index_loop2, Bool.not_false, Bool.and_self,
+        if_true, hlen, decide_false, hd, scanFwd]
+      cases fuel <;> simp [PyFun.pyWhile, PyFun.get_insertion_index_loop2_cond]
+    · have hp' : p < T.length := by omega
+      have hd : T.drop p = T[p] :: T.drop (p + 1) := List.drop_eq_getElem_cons hp'
+      have hlen : ((p : Int) < ((T.map kmInt).length : Int)) := by simp only [List.length_map]; omega
+      rw [PyFun.pyWhile]
+      simp only [PyFun.get_insertion_index_loop2_cond, PyFun.get_insertion_index_loop2, Bool.not_false, Bool.and_self,
+        if_true, hlen, decide_true, hd, scanFwd, pyGet_kmInt T p hp', gg_kmInt]
+      by_cases hle : T[p].gen + 1 ≤ g
+      · have h1 : ((T[p].gen : Nat) : Int) ≤ (g : Int) - 1 := by omega
+        simp only [Entry.gen] at hle h1 ⊢
+        simp only [h1, hle, decide_true, if_true]
+        have := ih (p + 1) (by omega) (by omega) fuel (by omega)
+        simpa using this
+      · have h1 : ¬ (((T[p].gen : Nat) : Int) ≤ (g : Int) - 1) := by omega
+        simp only [Entry.gen] at hle h1 ⊢
+        simp only [h1, hle, decide_false, if_false]
+        cases fuel <;> simp [PyFun.pyWhile, PyFun.get_insertion_index_loop2_cond]
+
+/-- `_get_insertion_index` as written in the source = the model's `insertionIndex`, for every fuel larger than
+the table (neither the `IndexError` of `routing_table[pos]` nor fuel exhaustion can happen) -/
+theorem gen_get_insertion_index (T : List Entry) (g fuel : Nat) (hf : T.length + 1 ≤ fuel) :
+    PyFun.get_insertion_index (T.map kmInt) (g : Int) fuel = .ok ((insertionIndex T g : Nat) : Int) := by
+  unfold PyFun.get_insertion_index insertionIndex
+  by_cases hT : T = []
+  · subst hT; rfl
+  have hlen : 0 < T.length := List.length_pos_iff.mpr hT
+  have hne : (T.map kmInt) ≠ [] := by simpa using hT
+  have hemp : T.isEmpty = false := by simpa using hT
+  simp only [hne, not_true_eq_false, not_not, ne_eq, not_false_eq_true, if_false, hemp, Bool.false_eq_true]
+  have e0 : Int.fdiv (((T.map kmInt).length : Int) - 0) 2 = ((T.length / 2 : Nat) : Int) := by
+    rw [Int.fdiv_eq_ediv_of_nonneg _ (by decide)]; simp only [List.length_map]; omega
+  have hp0 : T.length / 2 < T.length := by omega
+  rw [e0, pyGet_kmInt T _ hp0]
+  simp only [gg_kmInt]
+  obtain ⟨b', t', p', hp', hle, hw, hm⟩ := bs_loop T g T.length 0 T.length (T.length / 2) hp0 (le_refl _) (by omega)
+  have hw' := hw fuel (by omega)
+  simp only [bsState, List.length_map, Nat.cast_zero] at hw' ⊢
+  rw [hw']
+  simp only []
+  rw [scan_loop T g (T.length - p') p' hle (le_refl _) fuel (by omega), hm T.length (le_refl _)]
+
+/-- non-vacuity: a two-entry table, fuel 3 -/
+example : PyFun.get_insertion_index
+    ([(⟨1, 0#32, 0xFFFFFFFF#32, 0⟩ : Entry), ⟨2, 0#32, 0xFFFFFFFE#32, 0⟩].map kmInt) 1 3
+      = .ok ((insertionIndex [(⟨1, 0#32, 0xFFFFFFFF#32, 0⟩ : Entry), ⟨2, 0#32, 0xFFFFFFFE#32, 0⟩] 1 : Nat) : Int) :=
+  gen_get_insertion_index _ 1 3 (by decide)
 
 end Rig.C04
